@@ -31,6 +31,11 @@ func (db *DB) InsertRaw(stream string, ts time.Time, dims bytemap.ByteMap, vals 
 		return fmt.Errorf("No wal found for stream %v", stream)
 	}
 
+	if len(dims) > maxKeyLength {
+		// row files store the length of a key in 16 bits
+		return fmt.Errorf("Dimensions of %d bytes are too large, the maximum is %d", len(dims), maxKeyLength)
+	}
+
 	if len(db.opts.WhitelistedDimensions) > 0 {
 		if db.log.IsTraceEnabled() {
 			db.log.Tracef("Whitelist Dims Original dims: %v", dims.AsMap())
@@ -57,6 +62,9 @@ func (db *DB) InsertRaw(stream string, ts time.Time, dims bytemap.ByteMap, vals 
 	}
 	return err
 }
+
+// maxKeyLength is the longest key a row file can hold (its length is written as a uint16)
+const maxKeyLength = 1<<16 - 1
 
 type walRead struct {
 	data   []byte
@@ -206,6 +214,12 @@ func (t *table) doInsert(ts time.Time, dims bytemap.ByteMap, vals bytemap.ByteMa
 			}
 		}
 		key = bytemap.FromSortedKeysAndValues(names, values)
+	}
+
+	if len(key) > maxKeyLength {
+		// row files store the length of a key in 16 bits: a longer key would make the next file unreadable
+		t.log.Errorf("Skipping point whose key of %d bytes is longer than %d", len(key), maxKeyLength)
+		return false
 	}
 
 	// Do separate inserts rows for array values if necessary
